@@ -25,11 +25,12 @@ import (
 func init() { vfRegistry["C17/sio-timers"] = runC17Sio }
 
 type vfTmOp struct {
-	kind    string // make | cancel | sleep
-	id      string
-	d       time.Duration
-	payload string
-	remake  *vfTmOp // the handler of this timer's message re-creates a timer under the same id
+	kind     string // make | cancel | sleep
+	id       string
+	d        time.Duration
+	payload  string
+	remake   *vfTmOp // the handler of this timer's message re-creates a timer under the same id
+	debounce bool    // issued as cancel + make of the same id by one machine within one processed message
 }
 
 var vfDelays = []time.Duration{time.Millisecond, 5 * time.Millisecond, 20 * time.Millisecond, time.Second, time.Hour}
@@ -56,7 +57,7 @@ func runC17Sio(c *sim.Ctx, t *testing.T) {
 		nops := 1 + c.Intn(5, "nops")
 		for i := 0; i < nops; i++ {
 			id := ids[c.Intn(len(ids), "id")]
-			switch k := c.Intn(6, "op"); {
+			switch k := c.Intn(7, "op"); {
 			case k <= 2 && !pending[id] && !remade[id]:
 				op := &vfTmOp{kind: "make", id: id, d: vfDelays[c.Intn(len(vfDelays), "d")], payload: newPayload()}
 				byPayload[op.payload] = op
@@ -67,6 +68,13 @@ func runC17Sio(c *sim.Ctx, t *testing.T) {
 					// requester must not make one itself ("make while pending" is not asserted for sio)
 					remade[id] = true
 				}
+				pending[id] = true
+				plans[r] = append(plans[r], op)
+			case k == 5 && !remade[id]:
+				// a "debounce": one message makes the handler machine emit a cancel and then a
+				// make for the same id, both processed within that one message
+				op := &vfTmOp{kind: "debounce", id: id, d: vfDelays[c.Intn(len(vfDelays), "d")], payload: newPayload(), debounce: true}
+				byPayload[op.payload] = op
 				pending[id] = true
 				plans[r] = append(plans[r], op)
 			case k <= 4:
@@ -141,6 +149,11 @@ func runC17Sio(c *sim.Ctx, t *testing.T) {
 					if op.kind == "make" {
 						msg = vfMakeMsg(op)
 						lg.Add(sim.Ev{Kind: "make.inv", Id: op.id, Val: op.payload, N: int64(op.d), Err: rid})
+					} else if op.kind == "debounce" {
+						mk := vfMakeMsg(&vfTmOp{id: op.id, d: op.d, payload: op.payload})
+						msg = map[string]interface{}{"to": "h", "id": "db-" + op.payload, "emit": map[string]interface{}{"h": []interface{}{
+							map[string]interface{}{"to": "timers", "cancelTimer": op.id}, mk}}}
+						lg.Add(sim.Ev{Kind: "debounce.inv", Id: op.id, Val: op.payload, N: int64(op.d), Err: rid})
 					} else {
 						msg = map[string]interface{}{"to": "timers", "cancelTimer": op.id}
 						lg.Add(sim.Ev{Kind: "cancel.inv", Id: op.id, Err: rid})
@@ -210,6 +223,8 @@ func runC17Sio(c *sim.Ctx, t *testing.T) {
 			reqs[e.Err] = &reqInfo{"make", e.Id, e.Val, time.Duration(e.N), e}
 		case "cancel.inv":
 			reqs[e.Err] = &reqInfo{"cancel", e.Id, "", 0, e}
+		case "debounce.inv":
+			reqs[e.Err] = &reqInfo{"debounce", e.Id, e.Val, time.Duration(e.N), e}
 		case "proc":
 			curReq = e.Err
 		case "recv":
@@ -244,6 +259,13 @@ func runC17Sio(c *sim.Ctx, t *testing.T) {
 				if q.kind == "make" {
 					hist = append(hist, sim.Ev{Seq: inv.Seq, Task: curReq, Kind: "add.inv", Id: q.id, Val: q.payload, N: int64(q.d), At: inv.At})
 					hist = append(hist, sim.Ev{Seq: retSeq, Task: curReq, Kind: "add.ret", Id: q.id, Val: q.payload, At: e.At})
+				} else if q.kind == "debounce" {
+					// the cancel is processed strictly before the make, both before this result
+					hist = append(hist, sim.Ev{Seq: inv.Seq, Task: curReq + "c", Kind: "rem.inv", Id: q.id, At: inv.At})
+					hist = append(hist, sim.Ev{Seq: retSeq - 1, Task: curReq + "c", Kind: "rem.ret", Id: q.id, Err: "?", At: e.At})
+					hist = append(hist, sim.Ev{Seq: retSeq, Task: curReq + "m", Kind: "add.inv", Id: q.id, Val: q.payload, N: int64(q.d), At: inv.At})
+					hist = append(hist, sim.Ev{Seq: retSeq, Task: curReq + "m", Kind: "add.ret", Id: q.id, Val: q.payload, At: e.At})
+					c.Count("debounces")
 				} else {
 					hist = append(hist, sim.Ev{Seq: inv.Seq, Task: curReq, Kind: "rem.inv", Id: q.id, At: inv.At})
 					hist = append(hist, sim.Ev{Seq: retSeq, Task: curReq, Kind: "rem.ret", Id: q.id, Err: "?", At: e.At})
@@ -257,6 +279,9 @@ func runC17Sio(c *sim.Ctx, t *testing.T) {
 				for _, x := range lgEntries[vfMin(seenLog, len(lgEntries)):] {
 					em, _ := x.(map[string]interface{})
 					p := fmt.Sprint(em["id"])
+					if byPayload[p] == nil {
+						continue // not a timer's message (e.g. a debounce request to the handler)
+					}
 					at, _ := em["at"].(float64)
 					fireAt := time.Duration(int64(at)-t0.UnixMilli()) * time.Millisecond
 					if fired[p] {
@@ -274,7 +299,7 @@ func runC17Sio(c *sim.Ctx, t *testing.T) {
 					if mk, ok := m["makeTimer"].(map[string]interface{}); ok {
 						payload := fmt.Sprint(mk["msg"].(map[string]interface{})["id"])
 						op := byPayload[payload]
-						if op == nil {
+						if op == nil || op.debounce {
 							continue
 						}
 						task := "handler-" + payload
